@@ -207,7 +207,7 @@ func (c *Case) Truncator() shaping.Output {
 
 // Config builds the WrapConfig.
 func (c *Case) Config() shaping.WrapConfig {
-	return shaping.WrapConfig{
+	cfg := shaping.WrapConfig{
 		Direction:                     c.paraDir(),
 		TruncateAfterLines:            c.TruncateAfter,
 		Truncator:                     c.Truncator(),
@@ -215,7 +215,19 @@ func (c *Case) Config() shaping.WrapConfig {
 		BreakPolicy:                   shaping.LineBreakPolicy(c.Policy),
 		DisableTrailingWhitespaceTrim: c.DisableTrim,
 	}
+	if (len(c.Text)+c.TruncateAfter)%2 == 1 {
+		// the other documented way of setting the truncator: every other field set first,
+		// then the helper (which must leave them alone)
+		cfg.Truncator = shaping.Output{}
+		cfg = cfg.WithTruncator(fixedShaper{c.Truncator()}, shaping.Input{})
+	}
+	return cfg
 }
+
+// fixedShaper is a shaping.Shaper returning a prepared run.
+type fixedShaper struct{ out shaping.Output }
+
+func (f fixedShaper) Shape(shaping.Input) shaping.Output { return f.out }
 
 // isTruncator recognises the truncator in an output line by its Size marker
 // (never guessed from counts).
